@@ -517,3 +517,12 @@ pub fn c17(sh: &Shape) {
         i += 1;
     }
 }
+
+// ------------------------------------------------------------------------------------------
+// C04: predicted script size equals the length of the encoding (constants from the library).
+
+pub fn c04(sh: &Shape) {
+    note_shape(sh);
+    cover!(true, "shape checked");
+    chk!(sh.fig.script_size == sh.fig.script_len, "script_size() differs from the length of the encoding");
+}
